@@ -223,6 +223,67 @@ pub fn run(rep: &mut Rep) {
             }
         }
     }
+    // inbound traffic for subscriptions whose stream the application has dropped (the client prunes such a registration
+    // when it next routes to it) arriving while operations are waiting for their acknowledgements: the waiting
+    // operations are none of its business
+    rep.note("pruning of dropped streams vs. waiting operations: 1-4 subscriptions of which one has a dropped stream, 1-5 operations of mixed kinds waiting for acknowledgements, a PUBLISH for the dropped stream (QoS 0/1/2) arrives: all stay pending and then complete with their own acknowledgements");
+    for nsubs in 1..=4usize {
+        for dropped in 0..nsubs {
+            for nops in 1..=5usize {
+                let id = format!("prune:{nsubs}:{dropped}:{nops}");
+                idx += 1;
+                if !rep.take(idx, &id) {
+                    continue;
+                }
+                let mut rng = crate::sim::Rng::new(rep.seed.wrapping_mul(271).wrapping_add(idx));
+                let mut w = World::boot(WorldCfg { seed: rep.seed, ..Default::default() });
+                let mut subs = Vec::new();
+                for j in 0..nsubs {
+                    let i = w.start(j % 2, Kind::Sub);
+                    w.settle_check();
+                    w.deliver_ack(i, 1, 0, 0);
+                    w.settle_check();
+                    w.take_stream(i);
+                    subs.push(i);
+                }
+                w.drop_stream(subs[dropped]);
+                w.settle_check();
+                let kinds = [Kind::Pub1, Kind::Unsub, Kind::Ping, Kind::Pub2, Kind::Sub];
+                for j in 0..nops {
+                    w.start(j % 2, kinds[(j + dropped) % kinds.len()]);
+                    w.settle_check();
+                }
+                let sid = w.m[subs[dropped]].sub_id.unwrap_or(1);
+                let q = ((nsubs + nops) % 3) as u8;
+                w.in_publish(q, 77, false, &[sid], false);
+                w.settle_check();
+                w.in_publish(0, 0, false, &[sid], false);
+                w.settle_check();
+                let mut guard = 0;
+                loop {
+                    let mut ackable = w.ackable();
+                    let pings = w.pings_outstanding().len();
+                    if (ackable.is_empty() && pings == 0) || w.blind || guard > 40 {
+                        break;
+                    }
+                    if pings > 0 && (ackable.is_empty() || rng.chance(1, 3)) {
+                        w.pingresp();
+                    } else {
+                        let (i, st) = ackable.swap_remove(rng.below(ackable.len()));
+                        w.deliver_ack(i, st, rng.below(9), 1);
+                    }
+                    w.settle_check();
+                    guard += 1;
+                }
+                super::script::finish(&mut w);
+                rep.add("evaluations", 1);
+                rep.add("pruning_vs_waiting_operation_cases", 1);
+                rep.distinct(&("prune", nsubs, dropped, nops));
+                super::harvest(rep, &mut w, &id);
+                super::add_counters(rep, &w);
+            }
+        }
+    }
     // across the identifier wrap: operations of one kind issued while the 16-bit counter passes 65535 -> 1, all
     // outstanding together, acknowledged in reverse and in PRNG order with distinct contents
     rep.note("identifier wrap: 6 operations of one kind (pub1 / pub2 / sub / unsub, and mixed) started with the counter at 65531..65535 (hook H2) from two clones, all outstanding, acknowledged last-first / PRNG order, each with its own reason code and reason string");
